@@ -259,7 +259,7 @@ Qed.
 
 Theorem kw_ok : forall fuel pw, (length pw <= fuel)%nat -> pw <> [] ->
   exists sl f, KW fuel pw = Some (sl, f) /\ tiles pm pw sl /\ Forall sound sl /\ f = texts 0 sl /\
-               Forall (fun x => snd x = None \/ isC 0 x = true) sl.
+               Forall (fun x => snd x = None \/ isC 0 x = true) sl /\ no_adj unlab sl.
 Proof.
   induction fuel as [|fu IH]; intros pw Hf Hne.
   - destruct pw; [congruence|simpl in Hf; lia].
@@ -274,10 +274,11 @@ Proof.
       assert (Erest : sfrom pw index = value :: rest').
       { rewrite Epw, Hidx, app_assoc. apply sfrom_app. }
       rewrite Erest.
-      destruct (IH (value :: rest')) as (secs & found & -> & Ht & Hsd & Hfd & Hcl); [|discriminate|].
+      destruct (IH (value :: rest')) as (secs & found & -> & Ht & Hsd & Hfd & Hcl & Hna); [|discriminate|].
       { apply (f_equal (@length N)) in Epw. rewrite !app_length in Epw. simpl in Epw.
         assert (4 <= len combo) by lia. unfold len in *. simpl. lia. }
-      eexists _, _. split; [reflexivity|]. split; [|split; [|split]].
+      eexists _, _. split; [reflexivity|]. split; [|split; [|split; [|split]]].
+      5: { apply no_adj_osec_cons; [reflexivity|]. simpl. split; [discriminate|assumption]. }
       3: { unfold texts. rewrite filter_app, filter_isC_osec. simpl. now rewrite Hfd. }
       3: { apply Forall_app. split; [destruct d0; [constructor|rewrite osec_cons; constructor; [now left|constructor]]|].
            constructor; [now right|assumption]. }
@@ -290,15 +291,16 @@ Proof.
         -- constructor; [now apply sound_K|assumption].
     + destruct Hs as (d0 & Epw & Hw).
       assert (Hwhole : exists sl f, Some ([(pw, @None label)], @nil str) = Some (sl, f) /\ tiles pm pw sl /\ Forall sound sl /\ f = texts 0 sl /\
-                 Forall (fun x => snd x = None \/ isC 0 x = true) sl).
-      { eexists _, _. split; [reflexivity|]. split; [|split; [|split; [reflexivity|constructor; [now left|constructor]]]].
+                 Forall (fun x => snd x = None \/ isC 0 x = true) sl /\ no_adj unlab sl).
+      { eexists _, _. split; [reflexivity|]. split; [|split; [|split; [reflexivity|split; [constructor; [now left|constructor]|simpl; auto]]]].
         - exists [pw]. split; [simpl; apply app_nil_r|]. constructor; [reflexivity|constructor].
         - constructor; [|constructor]. now apply sound_unlab. }
       destruct (min_run <=? len combo) eqn:Em; [|exact Hwhole]. apply Z.leb_le in Em.
       destruct (INTERESTING combo) as [[|]|] eqn:Eint; [|exact Hwhole|].
       * assert (Epre : (if len combo =? len pw then [] else [(slice pw 0 (len pw - len combo), @None label)]) = osec d0).
         { rewrite (kw_pre pw d0 combo [] (len pw)); [reflexivity|now rewrite app_nil_r|now rewrite Epw]. }
-        rewrite Epre. eexists _, _. split; [reflexivity|]. split; [|split; [|split]].
+        rewrite Epre. eexists _, _. split; [reflexivity|]. split; [|split; [|split; [|split]]].
+        5: { apply no_adj_osec_cons; [reflexivity|]. simpl. split; [discriminate|exact I]. }
         3: { unfold texts. rewrite filter_app, filter_isC_osec. reflexivity. }
         3: { apply Forall_app. split; [destruct d0; [constructor|rewrite osec_cons; constructor; [now left|constructor]]|].
              constructor; [now right|constructor]. }
